@@ -1259,6 +1259,10 @@ class Engine:
                 if o.fields is not None:
                     raise EngineLimit("spec reads unset field %s.%s" % (o.cls.name, name))
                 return self.abstract_field(ctx, o, name)
+            if o.ghost.get("$constructed-by-contract"):
+                # an object whose constructor was applied through its contract: a field the class specification does not
+                # declare is unknown here, not absent
+                raise EngineLimit("field %s.%s is not declared in the class specification" % (o.cls.name, name))
             raise PyRaise(ExcVal(V.ExtClass("AttributeError")))
         if isinstance(o, V.ClassVal):
             if name in o.cls.nested:
@@ -1797,6 +1801,8 @@ class Engine:
         if is_init:
             selfv = ns.self
             self.havoc_init_fields(ctx, selfv, finfo.cls)
+            if isinstance(selfv, Obj) and selfv.cls is finfo.cls:
+                selfv.ghost["$constructed-by-contract"] = True
         else:
             if contract.returns is not None:
                 result = ctx.fresh_kind("ret!" + finfo.name, contract.returns)
